@@ -3,12 +3,15 @@ Correspondence: T2 differential (real ABTU_hashtable under ASan/UBSan vs Lean Mo
 import collections
 from vlib import common as C
 from vlib import diff as D
+from checks import c20_parsers as P
 
 ASSUMPTIONS = [
     "hashtable chain nodes modelled as a list in link order (pointer identity of malloc'ed nodes not observable)",
     "values modelled as unbounded naturals; the driver uses 8-byte values (data_size = 8)",
     "num_entries > 0 (the C code divides by it; every caller passes a positive constant)",
 ]
+
+ASSUMPTIONS += P.ASSUMPTIONS
 
 INT_MIN, INT_MAX = -2**31, 2**31 - 1
 
@@ -105,11 +108,14 @@ def t2_htable(res, tier, broken):
 
 def run(res, tier, broken):
     t2_htable(res, tier, broken)
+    P.run(res, tier, broken)
 
 
 def replay(res, path):
     import json
     rep = json.load(open(path))
+    if "family" in rep:
+        return P.replay(res, rep)
     exe = C.cc_harness("wb_htable", ["wb_htable.c"], "san")
     if "ops" in rep:
         d = D.compare("htable", exe, rep["ops"])
